@@ -197,14 +197,22 @@ func (c *Conn) AsyncRead() {
 
 	// If is not EPOLLONESHOT, the reading event may be re-dispatched for more than
 	// once, here we reduce the duplicate reading events.
-	cnt := atomic.AddInt32(&c.readEvents, 1)
-	if cnt > 2 {
-		atomic.AddInt32(&c.readEvents, -1)
-		return
-	}
-	// Only handle it when it's the first reading event.
-	if cnt > 1 {
-		return
+	// The counter must never be raised above 2 and then taken back: the read
+	// task decrements it concurrently, an undo that lands after the task has
+	// seen a non-zero value makes the counter pass 0 downwards, then the task
+	// never returns and spins on the empty socket.
+	for {
+		cnt := atomic.LoadInt32(&c.readEvents)
+		if cnt >= 2 {
+			return
+		}
+		if atomic.CompareAndSwapInt32(&c.readEvents, cnt, cnt+1) {
+			// Only handle it when it's the first reading event.
+			if cnt > 0 {
+				return
+			}
+			break
+		}
 	}
 
 	g.IOExecute(func(pBuf *[]byte) {
